@@ -191,7 +191,7 @@ def gen_rich(rng, P, serial=0):
     if rng.random() < pd:
       vals["d"] = rng.randint(1, 4)
     if rng.random() < pe:
-      lo = vals.get("b", 0) if seq_parent else 1
+      lo = vals.get("b", 0)            # an end before the begin is outside the domain of the timing clauses
       vals["e"] = rng.randint(max(1, lo), max(1, lo) + 4)
     for k, v in vals.items():
       nd[k] = expr(v * g, P, prefer if rng.random() < 0.6 else rng.choice(SYNTAXES), rng)
@@ -449,7 +449,12 @@ def corruptions(doc, rng, count):
               if not frames_ok(base["P"]):
                 ok = False
               else:
-                total += (x["num"] if x["syntax"] == "f" else x["f"]) * X.ticks_per_frame(base["P"])
+                v = (x["num"] if x["syntax"] == "f" else x["f"]) * X.ticks_per_frame(base["P"])
+                if x["syntax"] == "f" and v % x["den"]:
+                  ok = False
+                if x["syntax"] == "clockFrames" and x["f"] >= (base["P"]["fr"] or 30):
+                  ok = False
+                total += v
             elif x["syntax"] == "t":
               v = X.ticks_per_tick(base["P"]) * x["num"]
               if v % x["den"] or v >= 2 ** 30:
